@@ -145,6 +145,8 @@ def gen_desc(rng, fc):
         c = gen.gen_reduce(rng)
     elif fc.nin == 2:
         c = gen.gen_elementwise(rng)
+        while len(c["shapes"]) != 2:      # the shared generator also produces three-operand forms; these functions take two
+            c = gen.gen_elementwise(rng)
     else:
         c = gen_unary(rng)
     return {"desc": c["desc"], "shapes": [tuple(s) for s in c["shapes"]], "kwargs": dict(c["kwargs"]), "note": list(c["note"])}
